@@ -15,6 +15,7 @@ read.  The oracle is by construction + the independent recogniser:
 from __future__ import annotations
 
 import copy
+import io
 
 import numpy as np
 
@@ -202,7 +203,11 @@ def generate(rng: Prng, tier: str) -> dict:
             v["word"] = fp.choice(BAD_WORDS)
         elif kind == "eio":
             v["f"] = fp.random()
-        elif kind == "rewrite":
+        if kind in ("bare", "decorated") and v["source"] == "string":
+            il = rng.stream(f"interleave{len(variants)}")
+            if il.chance(0.35):
+                v["interleave"] = il.choice([1, 2, 3, 5, 8, 13, 21, 40, 90, 200, 500])
+        if kind == "rewrite":
             v["point"] = fp.below(1 << 20)
             v["field"] = fp.below(4)
             v["keep_mtime"] = fp.chance(0.7)
@@ -279,7 +284,27 @@ def convert(world: World, text: str, variant: dict, tag: str, eio_frac=None):
             return NeurolucidaAscToSwc.from_stream(stream)
     if src == "wrapper":
         return NeurolucidaAscToSwc.from_stream(world.text_wrapper_source(text.encode("utf-8"), plan, "utf-8"))
-    return NeurolucidaAscToSwc.from_stream(world.string_source(text, eio_at))
+    stream = world.string_source(text, eio_at)
+    k = variant.get("interleave")
+    if k is not None and eio_at is None:
+        # two conversions interleaved at the I/O seam: at the k-th read of this stream another document is converted to
+        # completion (what a second task, thread or coroutine converting at the same time amounts to, with the
+        # simulator deciding where it cuts in), then this one goes on. Both must come out right.
+        calls = [0]
+        inner_read = stream.read
+
+        def read(size=-1):
+            calls[0] += 1
+            if calls[0] == k:
+                other = NeurolucidaAscToSwc.from_stream(io.StringIO("( (Color Red) (Dendrite)\n (12345 -6789 43210 2.5)\n (98765 4321 -1234 1.25) )\n"))
+                got = [float(v) for c in "xyzr" for v in other.get_ndata(c)]
+                if got != [12345.0, 98765.0, -6789.0, 4321.0, 43210.0, -1234.0, 2.5, 1.25] or [int(v) for v in other.pid()] != [-1, 0]:
+                    raise Bad("node_values", "interleaved:other", f"the document converted in between came out as {got}")
+                world.probe("c15.conversion_interleaved_at_a_read")
+            return inner_read(size)
+
+        stream.read = read
+    return NeurolucidaAscToSwc.from_stream(stream)
 
 
 def compare(tree, exp: dict, op: str):
